@@ -333,7 +333,7 @@ pub fn run(tier: Tier, seed: u64, replay: Option<String>) -> i32 {
             pairs.push(p);
         }
     }
-    let n = tier.pick(6000, 150000);
+    let n = tier.pick(40000, 400000);
     let mut drv = Driver::new(seed, 9, 80);
     pairs.extend(drv.draw(n).iter().map(|t| {
         let s = t.current();
